@@ -24,6 +24,10 @@ fn main() {
     if args.len() < 3 {
         usage();
     }
+    if args[1] == "c08pair" {
+        props::c08::debug_pair(&args[2], &args[3]);
+        return;
+    }
     if args[1] == "asanprobe" {
         // self-test of the sanitizer pass: keep a &str from Symbol::as_str across an interning that makes the
         // interner's buffer grow, then read it (a use after free that only an instrumented build reports)
